@@ -4,6 +4,7 @@ import common
 
 PROPS = "RotoV.Props.C18"
 PROPS_USE = "RotoV.Props.C18Use"
+PROPS_PASSES = "RotoV.Props.C18Passes"
 
 
 def search(ctx):
@@ -20,22 +21,32 @@ def search(ctx):
 
 def run(ctx):
     ctx.extract(["keywords", "flattenuse", "regpasses"])
-    # two theorem modules, so that a change to the macro breaks exactly the T5 obligations and a change to the
-    # lexer's keyword table exactly the others
-    ok1 = ctx.prove(PROPS, extra_modules=["RotoV.Lemmas.Registration", "RotoV.Lemmas.RegistrationUse",
-                                          "RotoV.Lemmas.RegistrationOps", "RotoV.Lemmas.RegistrationClosed",
-                                          "RotoV.Lemmas.RegistrationOrder", "RotoV.Lemmas.RegistrationExact",
-                                          "RotoV.Lemmas.RegistrationDefects", "RotoV.Lemmas.RegistrationReach",
-                                          "RotoV.Lemmas.RegistrationAccepts", "RotoV.Model.Registration",
-                                          "RotoV.Model.RegistrationSrc"])
-    first = {k: ctx.coverage.get(k) for k in ("theorems", "nonvacuity_examples", "axioms")}
-    ok2 = ctx.prove(PROPS_USE, extra_modules=["RotoV.Lemmas.UseTree", "RotoV.Model.UseTree"])
-    if first["theorems"] and ok2:  # prove() overwrites these: report both modules
-        ctx.coverage["theorems"] = first["theorems"] + ctx.coverage["theorems"]
-        ctx.coverage["nonvacuity_examples"] += first["nonvacuity_examples"]
-        ctx.coverage["axioms"] = {**first["axioms"], **ctx.coverage["axioms"]}
-    elif first["theorems"]:
-        ctx.coverage.update(first)
+    # three theorem modules, so that a change to the macro breaks exactly the T5 obligations, a change to the pass
+    # structure of Rt::add exactly those of C18Passes and a change to the lexer's keyword table the others
+    parts = []
+
+    def prove(module, extra=()):
+        for k in ("theorems", "nonvacuity_examples", "axioms"):
+            ctx.coverage.pop(k, None)
+        ok = ctx.prove(module, extra_modules=list(extra))
+        if ctx.coverage.get("theorems"):  # prove() overwrites these: report all modules
+            parts.append({k: ctx.coverage.get(k) for k in ("theorems", "nonvacuity_examples", "axioms")})
+        return ok
+
+    ok1 = prove(PROPS, ["RotoV.Lemmas.Registration", "RotoV.Lemmas.RegistrationUse",
+                        "RotoV.Lemmas.RegistrationOps", "RotoV.Lemmas.RegistrationClosed",
+                        "RotoV.Lemmas.RegistrationOrder", "RotoV.Lemmas.RegistrationExact",
+                        "RotoV.Lemmas.RegistrationDefects", "RotoV.Lemmas.RegistrationReach",
+                        "RotoV.Lemmas.RegistrationAccepts", "RotoV.Model.Registration",
+                        "RotoV.Model.RegistrationSrc"])
+    ok2 = prove(PROPS_USE, ["RotoV.Lemmas.UseTree", "RotoV.Model.UseTree"])
+    # the theorems that mention the regenerated pass structure (pass order, per-arm scope, declare_import walk)
+    ok3 = prove(PROPS_PASSES)
+    if parts:
+        ctx.coverage["theorems"] = [t for p in parts for t in p["theorems"]]
+        ctx.coverage["nonvacuity_examples"] = sum(p["nonvacuity_examples"] or 0 for p in parts)
+        ctx.coverage["axioms"] = {k: v for p in parts for k, v in (p["axioms"] or {}).items()}
+    ok2 = ok2 and ok3
     if not (ok1 and ok2):
         ctx.lake_build(["rotov-driver"])
     if ctx.build_harness("c18"):
